@@ -68,6 +68,24 @@ def generate(seed, tier, enlarged=False):
         r = i % 5
         if r == 0:
             cases.append({'kind': 'embed', 'parts': gen_parts(rng), 'path': [rng.choice(KEYS[:3]) for _ in range(rng.randint(0, 3))]})
+        elif r == 4 and i % 2 == 0:
+            # schema overrides: a subset of the processes named with a new default / emit flag for their variable,
+            # handed over by one of the four routes
+            parts = gen_parts(rng)
+            names = []
+
+            def collect(d, pre):
+                for k, v in d.items():
+                    if isinstance(v, dict):
+                        collect(v, pre + [k])
+                    else:
+                        names.append(pre + [k])
+            collect(parts['processes'], [])
+            collect(parts['steps'], [])
+            targets = [pth for pth in names if rng.random() < 0.5] or names[:1]
+            cases.append({'kind': 'override', 'parts': parts, 'route': rng.choice(['composer', 'composite', 'merge', 'param']),
+                          'targets': [[pth, rng.randint(1, 9) * 11, rng.random() < 0.5] for pth in targets],
+                          'shared_schema': rng.random() < 0.6})
         elif r == 4:
             cases.append({'kind': 'entry', 'parts': gen_parts(rng, nested_ok=False), 'ticks': rng.randint(1, 3)})
         else:
@@ -240,6 +258,8 @@ def run_impl(c):
             for k in Composite.defaults:          # keep the cases of this run independent of each other
                 Composite.defaults[k] = {}
         return {'comp': dump_comp(me), 'problems': problems}
+    if kind == 'override':
+        return run_override(c)
     # entry points
     from vivarium.core.engine import Engine
     parts = realise_parts(c['parts'])
@@ -272,6 +292,125 @@ def run_impl(c):
         eng.update(c['ticks'])
         reuse['traj'] = strip(eng.emitter.get_data())
     return {'trajs': trajs, 'reuse': reuse}
+
+
+SHARED_SCHEMA = {'s': {'x': {'_default': 0, '_emit': True}}}
+
+
+def run_override(c):
+    """schema overrides naming some processes: the store built afterwards"""
+    from vivarium.core.composer import Composer, Composite
+    from vivarium.core.process import Process, Step
+    shared = c['shared_schema']
+    pristine = copy.deepcopy(SHARED_SCHEMA)
+
+    class PO(Process):
+        def ports_schema(self):
+            # (`shared_schema`: the schema is a constant that outlives the call, shared by every instance)
+            return SHARED_SCHEMA if shared else copy.deepcopy(pristine)
+
+        def next_update(self, ts, states):
+            return {}
+
+    class SO(Step):
+        def ports_schema(self):
+            return SHARED_SCHEMA if shared else copy.deepcopy(pristine)
+
+        def next_update(self, ts, states):
+            return {}
+    over = {}
+    for pth, dflt, emit in c['targets']:
+        d = over
+        for k in pth[:-1]:
+            d = d.setdefault(k, {})
+        d[pth[-1]] = {'s': {'x': {'_default': dflt, '_emit': emit}}}
+    flat_over = {tuple(pth): (dflt, emit) for pth, dflt, emit in c['targets']}
+
+    def mk(name, path):
+        cls = SO if name.startswith('s') else PO
+        params = {'name': name}
+        if c['route'] == 'param' and tuple(path) in flat_over:
+            dflt, emit = flat_over[tuple(path)]
+            params['_schema'] = {'s': {'x': {'_default': dflt, '_emit': emit}}}
+        return cls(params)
+
+    def realise_p(d, pre=()):
+        return {k: (realise_p(v, pre + (k,)) if isinstance(v, dict) else mk(v, pre + (k,))) for k, v in d.items()}
+    parts = c['parts']
+    cfg = {'processes': realise_p(parts['processes']), 'steps': realise_p(parts['steps']),
+           'topology': realise_topology(parts['topology']),
+           'flow': realise(parts['flow'], lambda l: [tuple(x) for x in l]) if parts['flow'] else {},
+           'state': copy.deepcopy(parts['state'])}
+    try:
+        with contextlib.redirect_stdout(io.StringIO()):
+            if c['route'] == 'composer':
+                class Comp(Composer):
+                    def generate_processes(self, config):
+                        return cfg['processes']
+
+                    def generate_topology(self, config):
+                        return cfg['topology']
+
+                    def generate_steps(self, config):
+                        return cfg['steps']
+
+                    def generate_flow(self, config):
+                        return cfg['flow']
+                comp = Comp({'_schema': copy.deepcopy(over)}).generate()
+                store = comp.generate_store({'initial_state': copy.deepcopy(parts['state'])})
+            elif c['route'] == 'composite':
+                comp = Composite(dict(cfg, _schema=copy.deepcopy(over)))
+                store = comp.generate_store()
+            elif c['route'] == 'merge':
+                comp = Composite({'processes': {}, 'topology': {}})
+                comp.merge(processes=cfg['processes'], topology=cfg['topology'], steps=cfg['steps'], flow=cfg['flow'],
+                           state=cfg['state'], schema_override=copy.deepcopy(over))
+                store = comp.generate_store()
+            else:
+                comp = Composite(cfg)
+                store = comp.generate_store()
+        nodes = {}
+        for path, node in store.depth():
+            if node.leaf and path and path[-1] == 'x':
+                nodes['/'.join(path)] = [node.value, bool(node.emit)]
+        out = {'nodes': nodes, 'schema_kept': SHARED_SCHEMA == pristine}
+    except Exception as e:
+        out = {'err': '%s: %s' % (type(e).__name__, str(e)[:200])}
+    SHARED_SCHEMA.clear()
+    SHARED_SCHEMA.update(copy.deepcopy(pristine))
+    return out
+
+
+def oracle_override(c, ob):
+    if 'err' in ob:
+        return [('schema overrides made construction raise: ' + ob['err'], 'override-raised')]
+    msgs = []
+    over = {tuple(pth): (dflt, emit) for pth, dflt, emit in c['targets']}
+    parts = c['parts']
+
+    def walk(d, pre=()):
+        for k, v in d.items():
+            if isinstance(v, dict):
+                yield from walk(v, pre + (k,))
+            else:
+                yield pre + (k,)
+    for pth in list(walk(parts['processes'])) + list(walk(parts['steps'])):
+        node_path = pth[:-1] + ('v' + pth[-1], 'x')
+        given = parts['state']
+        for k in node_path:
+            given = given.get(k) if isinstance(given, dict) else None
+        dflt, emit = over.get(pth, (0, True))
+        want = [given if given is not None else dflt, emit]
+        got = ob['nodes'].get('/'.join(node_path))
+        if got != want:
+            msgs.append(('route %s, overrides for %r: the variable of %r is (value, emit) = %r, expected %r'
+                         % (c['route'], sorted('/'.join(p) for p in over), '/'.join(pth), got, want),
+                         'override-misdirected'))
+            break
+    if not ob['schema_kept']:
+        msgs.append(('an override was written into the dictionary ports_schema() returned (shared by all instances)',
+                     'override-misdirected'))
+    return msgs
 
 
 def strip(d):
@@ -336,6 +475,8 @@ def oracle(c, ob, rng):
                 me[k] = ref_deep_merge(me[k], ref_embed(m['path'], ref_deep_merge(other[k], loose[k])))
         if ob['comp'] != me:
             msgs.append(('the merged composite is not the union of its parts (later entries winning)', 'merge-not-union'))
+    elif kind == 'override':
+        msgs.extend(oracle_override(c, ob))
     else:
         a, b, s = ob['trajs']
         if a != b or a != s:
@@ -387,11 +528,13 @@ def render(c, ob):
             loose = tokens(m['loose']) if m['loose'] is not None else empty
             ms.append('(%s, %s, %s)' % (r.comp(other), r.comp(loose), r.path(m['path'])))
         return '(OMerge %s %s %s)' % (r.comp(tokens(c['self'])), clist(ms), r.comp(ob['comp']))
+    if c['kind'] == 'override':
+        return None                  # oracle only
     return '(OEmbed [] empty_comp empty_comp)'
 
 
 def nontrivial(c, ob):
-    return (c['kind'] == 'merge' and len(c['merges']) >= 2) or (c['kind'] == 'embed' and c['path']) or c['kind'] == 'entry'
+    return (c['kind'] == 'merge' and len(c['merges']) >= 2) or (c['kind'] == 'embed' and c['path']) or c['kind'] in ('entry', 'override')
 
 
 def stat_key(c, ob):
